@@ -162,6 +162,43 @@ def fnum(x):
 USER_SITES = ["Su_a", "Su_b", "Tv_a", "Uw_a"]
 
 
+def zname(z):
+    """charge suffix of a species name: +0.5, -1.5, + , -2, '' """
+    z = Fraction(z)
+    if z == 0:
+        return ""
+    mag = abs(z)
+    txt = str(mag.numerator) if mag.denominator == 1 else repr(float(mag))
+    return ("+" if z > 0 else "-") + ("" if mag == 1 else txt)
+
+
+def charged_species_block(rng, sites):
+    """CD-MUSIC in the Hiemstra - van Riemsdijk formulation: the SURFACE_MASTER_SPECIES carry a (fractional) charge
+    (Su_aOH-0.5, Su_bOH-0.25 ...).  Returns (text, {site: master name})"""
+    ms, sp, masters = ["SURFACE_MASTER_SPECIES"], ["SURFACE_SPECIES"], {}
+    for st in sites:
+        zm = Fraction(rng.choice(["-0.5", "-0.5", "-0.25", "-0.75", "0.5"]))
+        M = "%sOH%s" % (st, zname(zm))
+        masters[st] = M
+        ms.append(" %s %s" % (st, M))
+
+        def add(eq, lk, cdv):
+            sp.append(" " + eq)
+            sp.append("  log_k %s" % lk)
+            sp.append("  -cd_music %s %s %s 0 0" % tuple(cdv))
+        add("%s = %s" % (M, M), 0, (0, 0, 0))
+        add("%s + H+ = %sOH2%s" % (M, st, zname(zm + 1)), round(rng.uniform(6.0, 10.0), 2), (1, 0, 0))
+        add("%s + Na+ = %sOHNa%s" % (M, st, zname(zm + 1)), round(rng.uniform(-2.0, 0.5), 2), (0, 1, 0))
+        add("%s + K+ = %sOHK%s" % (M, st, zname(zm + 1)), round(rng.uniform(-2.0, 0.5), 2), (0.2, 0.8, 0))
+        add("%s + H+ + Cl- = %sOH2Cl%s" % (M, st, zname(zm)), round(rng.uniform(6.0, 9.0), 2), (1, -1, 0))
+        add("%s + Ca+2 = %sOHCa%s" % (M, st, zname(zm + 2)), round(rng.uniform(1.0, 4.0), 2), (0.3, 1.7, 0))
+        add("%s + Zn+2 = %sOHZn%s" % (M, st, zname(zm + 2)), round(rng.uniform(2.0, 6.0), 2), (0.6, 1.4, 0))
+        add("%s + H+ + SO4-2 = %sOSO3%s + H2O" % (M, st, zname(zm - 1)), round(rng.uniform(7.0, 11.0), 2), (0.5, -1.5, 0))
+        add("2%s + Cd+2 = (%sOH)2Cd%s" % (M, st, zname(2 * zm + 2)), round(rng.uniform(3.0, 8.0), 2), (0.7, 1.3, 0))
+        add("%s + Fe+3 = %sOHFe%s" % (M, st, zname(zm + 3)), round(rng.uniform(4.0, 9.0), 2), (0.5, 2.5, 0))
+    return "\n".join(ms + sp) + "\n", masters
+
+
 def user_species_block(rng, sites, cd=False):
     """SURFACE_MASTER_SPECIES + SURFACE_SPECIES for user-defined site types (2-pK model, cation / anion / bidentate complexes)"""
     ms, sp = ["SURFACE_MASTER_SPECIES"], ["SURFACE_SPECIES"]
@@ -257,7 +294,16 @@ def make_case(rng, k, force=None):
                                [["Su_a", "Tv_a"], ["Su_a", "Tv_a", "Uw_a"], ["Su_a", "Su_b", "Tv_a", "Uw_a"]])
         else:
             sites = rng.choice([["Su_a"], ["Su_a", "Su_b"], ["Su_a", "Tv_a"], ["Su_a", "Su_b", "Tv_a"]])
-        blk = user_species_block(rng, sites, cd=(base == "cd_music"))
+        master_names = {st: st + "OH" for st in sites}
+        if base == "cd_music" and rng.random() < 0.6:
+            # charged master species and (always) two site types on the FIRST surface: sigma0 has to count z_master * sites of
+            # EVERY site type of the surface (comp_unknowns of the plane-0 charge unknown)
+            if "Su_b" not in sites:
+                sites = ["Su_a", "Su_b"] + [x for x in sites if x not in ("Su_a", "Su_b")]
+            blk, master_names = charged_species_block(rng, sites)
+            meta["charged_masters"] = True
+        else:
+            blk = user_species_block(rng, sites, cd=(base == "cd_music"))
         text += blk
         meta["user_block"] = blk
     text += solution_text(rng, 1, pH, ionic, temp, sorb, water, pe)
@@ -272,12 +318,12 @@ def make_case(rng, k, force=None):
             sname = st.split("_")[0]
             have = [x for x in meta["surfaces"] if x["name"] == sname]
             if have:
-                surf.append(" %sOH %s" % (st, fnum(ns)))
+                surf.append(" %s %s" % (master_names[st], fnum(ns)))
                 have[0]["sites"][st] = ns
                 continue
             a, g = round(area * rng.uniform(0.5, 2), 1), round(grams * rng.uniform(0.5, 2), 4)
             cap = [round(rng.uniform(0.5, 3.0), 3), round(rng.uniform(0.5, 5.0), 3)]
-            surf.append(" %sOH %s %s %s" % (st, fnum(ns), fnum(a), fnum(g)))
+            surf.append(" %s %s %s %s" % (master_names[st], fnum(ns), fnum(a), fnum(g)))
             if base == "cd_music":
                 surf.append(" -capacitances %s %s" % (fnum(cap[0]), fnum(cap[1])))
             if base == "ccm":
@@ -514,8 +560,8 @@ def state_checks(st, meta, table, si=0):
             #  rows' absolute convergence tolerance dominates)
             gc = gouy(st["eps"], tk, st["mu"], e["psi"])
             checks.append(("charge-law-donnan", "check_ddl_loose %s %s %s %s %s %s %s" % (Qpairs(zl), Q(A), Q(g), Q(e["psi"]), Q(st["mu"]), Q(st["eps"]), Q(tk)),
-                           abs(sig - gc) <= 1e-6 * abs(gc), {"surface": nm, "sigma_species": sig, "gouy_chapman": gc, "psi": e["psi"],
-                                                             "tolerance": 1e-6, "mu": st["mu"], "eps_r": st["eps"], "tk": tk}))
+                           abs(sig - gc) <= 1e-4 * abs(gc), {"surface": nm, "sigma_species": sig, "gouy_chapman": gc, "psi": e["psi"],
+                                                             "tolerance": 1e-4, "mu": st["mu"], "eps_r": st["eps"], "tk": tk}))
         if dl:
             dls = []
             for n_, m_ in e["dl"]:
@@ -568,6 +614,8 @@ def state_checks(st, meta, table, si=0):
             t = list(sc)[0]
             equiv = Fraction(1) if model == "cd_music" else sc[t]
             tot = sf["sites"][t]
+            if s["la"] < -250:
+                continue      # below the range of binary64 the engine clamps 10^lm (under / safe_exp): not a statement about the model
             checks.append(("activity-scale", "check_activity %s %s %s %s" % (Q(s["moles"]), Q(equiv), Q(tot), Q(s["la"])),
                            abs(s["moles"] * float(equiv) / tot - 10 ** s["la"]) <= TOL * 10 ** s["la"],
                            {"species": s["name"], "moles": s["moles"], "equiv": float(equiv), "sites": tot, "la": s["la"]}))
@@ -622,12 +670,15 @@ def cd_checks(st, meta, sf, e, mine, species, masters):
         return out
     f = lambda l: F_C * sum(float(z) * n for z, n in l) / (A * g)
     s0, s1, s2 = f(l0), f(l1), f(l2)
+    # the engine takes the master-charge part of sigma0 from the DEFINED sites (z_master * sites), the check from the species
+    # (z_master * sum n_i): they differ by the site-balance residual the convergence test admits (<= max(toler * sites, ineq_tol))
+    site_allow = sum(abs(float(split_charge(masters[t])[1])) * max(CODE_ABS_TOL * S_, 1e-15) for t, S_ in sf["sites"].items()) * F_C / (A * g)
     d01, d12 = e["psi"] - e["psi1"], e["psi1"] - e["psi2"]
     out.append(("charge-law-cd0", "check_linear %s %s %s %s %s" % (Qpairs(l0), Q(A), Q(g), Q(C1), Q(Fraction(e["psi"]) - Fraction(e["psi1"]))),
-                abs(s0 - C1 * d01) <= TOL * abs(C1 * d01), {"abs_residual": abs(s0 - C1 * d01), "surface": sf["name"], "sigma0_species": s0, "C1_dpsi": C1 * d01, "EDL_sigma": e["sigma"]}))
+                abs(s0 - C1 * d01) <= TOL * abs(C1 * d01), {"abs_residual": abs(s0 - C1 * d01), "abs_allow": site_allow, "surface": sf["name"], "sigma0_species": s0, "C1_dpsi": C1 * d01, "EDL_sigma": e["sigma"]}))
     l01 = l0 + l1
     out.append(("charge-law-cd1", "check_linear %s %s %s %s %s" % (Qpairs(l01), Q(A), Q(g), Q(C2), Q(Fraction(e["psi1"]) - Fraction(e["psi2"]))),
-                abs(s0 + s1 - C2 * d12) <= TOL * abs(C2 * d12), {"abs_residual": abs(s0 + s1 - C2 * d12), "surface": sf["name"], "sigma01_species": s0 + s1, "C2_dpsi": C2 * d12,
+                abs(s0 + s1 - C2 * d12) <= TOL * abs(C2 * d12), {"abs_residual": abs(s0 + s1 - C2 * d12), "abs_allow": site_allow, "surface": sf["name"], "sigma01_species": s0 + s1, "C2_dpsi": C2 * d12,
                                                                 "EDL_sigma1": e["sigma1"]}))
     ions = []
     for a in st["aq"]:
@@ -641,7 +692,7 @@ def cd_checks(st, meta, sf, e, mine, species, masters):
     gs = sum(m * (math.exp(float(z) * y) - 1) for m, z in ions) + abs(s1sum) * (math.exp(-y if s1sum >= 0 else y) - 1)
     gr = (1 if e["psi2"] > 0 else -1) * math.sqrt(max(0.0, 2000 * st["eps"] * EPS0 * R_J * tk * gs))
     out.append(("charge-law-cd2", "check_grahame %s %s %s %s %s %s %s" % (Qpairs(l012), Q(A), Q(g), Qpairs(ions), Q(e["psi2"]), Q(st["eps"]), Q(tk)),
-                abs(s0 + s1 + s2 - gr) <= TOL * abs(gr), {"abs_residual": abs(s0 + s1 + s2 - gr), "surface": sf["name"], "sigma012_species": s0 + s1 + s2, "grahame": gr, "psi2": e["psi2"]}))
+                abs(s0 + s1 + s2 - gr) <= TOL * abs(gr), {"abs_residual": abs(s0 + s1 + s2 - gr), "abs_allow": site_allow, "surface": sf["name"], "sigma012_species": s0 + s1 + s2, "grahame": gr, "psi2": e["psi2"]}))
     return out
 
 
@@ -818,7 +869,7 @@ def evaluate(ctx, cases, results):
                 # EDL_SPECIES (Phreeqc::get_edl_species) ignores the species' -erm_ddl enrichment factor that the charge balance,
                 # sum_diffuse_layer and EDL("element") apply: its composition does not balance the surface charge
                 key = "C20/edl_species-ignores-erm_ddl"
-            elif det.get("abs_residual") is not None and det["abs_residual"] <= CODE_ABS_TOL * 1.05:
+            elif det.get("abs_residual") is not None and det["abs_residual"] <= CODE_ABS_TOL * 1.05 + det.get("abs_allow", 0.0):
                 # the charge rows are converged to an ABSOLUTE tolerance (convergence_tolerance = 1e-12 with -high_precision:
                 # C/m2 for the charge-potential rows, mol of charge for the diffuse-layer balance); for small charges this is
                 # weaker than the property's 1e-8 relative.  Same stable key for every instance of this gap.
